@@ -227,6 +227,72 @@ def controller_size(self):
 '''
 
 
+T_MERGE = '''
+def merge_controllers(target, source):
+    known = {controller.controller_name: controller for controller in target}
+    for controller in source:
+        other = known.get(controller.controller_name)
+        if other is not None and other is not controller:
+            error_msg = '?'
+            raise BiogemeError(error_msg)
+        known[controller.controller_name] = controller
+        target.add(controller)
+'''
+G_MERGE = '''(* from {file}:{line} merge_controllers; a Controller object is (name, identity), `a is not b`
+   compares identities, a dict / set of controllers is a list (set membership = Controller.__eq__ =
+   equality of names); the result is the mutated `target`; None = BiogemeError *)
+Definition merge_controllers (target source : list (string * Z)) : option (list (string * Z)) :=
+let known := List.fold_left (fun d controller => pdict_set d (fst controller) (snd controller)) target [] in
+match List.fold_left (fun acc controller => match acc with
+   | None => None
+   | Some (known, target) =>
+       let other := assoc (fst controller) known in
+       if (match other with Some o => negb (o =? snd controller) | None => false end) then None
+       else Some (pdict_set known (fst controller) (snd controller), obj_set_add target controller)
+   end) source (Some (known, target)) with
+| None => None
+| Some (_, target) => Some target
+end.
+'''
+
+T_GAC_EXPR = '''
+def get_all_controllers(self):
+    if not self.children:
+        return set()
+    all_controllers = set()
+    for e in self.children:
+        merge_controllers(all_controllers, e.get_all_controllers())
+    return all_controllers
+'''
+T_GAC_CAT = '''
+def get_all_controllers(self):
+    all_controllers = {self.controlled_by}
+    for e in self.children:
+        merge_controllers(all_controllers, e.get_all_controllers())
+    return all_controllers
+'''
+T_CTRL_EQ = '''
+def __eq__(self, other):
+    return self.controller_name == other.controller_name
+'''
+T_CTRL_HASH = '''
+def __hash__(self):
+    return hash(self.controller_name)
+'''
+T_CTRL_LT = '''
+def __lt__(self, other):
+    return self.controller_name < other.controller_name
+'''
+T_SET_CC = '''
+def set_central_controller(self, the_central_controller=None):
+    if the_central_controller is None:
+        self.central_controller = CentralController(expression=self)
+    else:
+        self.central_controller = the_central_controller
+    return self.central_controller
+'''
+
+
 def gen_config_text():
     tr = py2v.load(CONF)
     sep = module_str_constant(tr, 'SEPARATOR')
@@ -274,6 +340,18 @@ def gen_config_text():
     expect(tc, 'Controller.controller_size', T_CONTROLLER_SIZE)
     out.append(modify_controller_text(tc))
     out.append(the_modification_text(tc))
+    # ---- controller objects: names identify controllers
+    for q, t in (('Controller.__eq__', T_CTRL_EQ), ('Controller.__hash__', T_CTRL_HASH), ('Controller.__lt__', T_CTRL_LT)):
+        expect(tc, q, t)
+    fd = expect(tc, 'merge_controllers', T_MERGE)
+    out.append(G_MERGE.format(file=CTRL, line=fd.lineno))
+    # both get_all_controllers must be the folds modelled by Model.Catalog.all_controllers, and the
+    # central controller of a formula must stay its own (not handed down to sub-expressions)
+    te = py2v.load('src/biogeme/expressions/base_expressions.py')
+    expect(te, 'Expression.get_all_controllers', T_GAC_EXPR)
+    expect(te, 'Expression.set_central_controller', T_SET_CC)
+    tcat = py2v.load('src/biogeme/catalog.py')
+    expect(tcat, 'Catalog.get_all_controllers', T_GAC_CAT)
     return '\n'.join(out) + '\n'
 
 
